@@ -66,23 +66,21 @@ def check_predicate(report):
                  f"{what}: every reserved SEGMENT of the dotted path gets one trailing underscore (`book.class` -> `book.class_`); testing the whole "
                  f"string emits `request.book.class` (syntax error) or reads a non-existent attribute (`request.book.type`)")
     # _fields_mapping: suffix decided by the resolved leaf field's proto name
-    fm = m.func("gapic.schema.wrappers.Method._fields_mapping")
-    aug = [n for n in ast.walk(fm.node) if isinstance(n, ast.AugAssign) and pmatch("'_' if _F_.field_pb.name in utils.RESERVED_NAMES else ''", n.value) is not None]
-    node, _ = find_match("_N_ + ('_' if _F_.field_pb.name in utils.RESERVED_NAMES else '')", fm.node)
+    from .common_rules import fields_mapping_facts
+    ff = fields_mapping_facts()
+    fm = ff["fi"]
     r1.instance("_fields_mapping key suffix")
-    ok = len(aug) == 1 or node is not None
-    if len(aug) == 1:
-        F = pmatch("'_' if _F_.field_pb.name in utils.RESERVED_NAMES else ''", aug[0].value)["_F_"]
-        fdef = [n for n in ast.walk(fm.node) if isinstance(n, ast.Assign) and isinstance(n.targets[0], ast.Name) and n.targets[0].id == F]
-        ok = len(fdef) == 1 and pmatch("self.input.get_field(*_N_.split('.'))", fdef[0].value) is not None
-    r1.check(ok, fm.module.path, fm.node.lineno, "flattened key suffix",
+    r1.check(ff["key_rule"] and ff["key_pos"], fm.module.path, fm.node.lineno, "flattened key suffix",
              "the flattened key gets '_' exactly when the *resolved leaf field's* proto name is reserved (a dotted path `a.class` must become `a.class_`)")
     # body suffix in try_parse_http_rule
+    from ..pymodel import nfunc, find_match_ast
+    from ..pynorm import norm_expr, canon_globals
     tp = m.func("gapic.schema.wrappers.HttpRule.try_parse_http_rule")
-    hit = [n for n in ast.walk(tp.node) if isinstance(n, ast.If) and pmatch("_B_ in utils.RESERVED_NAMES and (not _B_.endswith('_'))", n.test) is not None
-           and len(n.body) == 1 and isinstance(n.body[0], ast.AugAssign) and ast.unparse(n.body[0].value) == "'_'"]
+    pat = canon_globals(m, norm_expr(ast.parse("f'{_ANYB_}_' if _ANYB_ in utils.RESERVED_NAMES and (not _ANYB_.endswith('_')) else _ANYB_", mode="eval").body))
+    node, bb = find_match_ast(pat, nfunc(m, tp, keep={"RESERVED_NAMES"}))
     r1.instance("http body suffix")
-    r1.check(len(hit) == 1, tp.module.path, tp.node.lineno, "body += '_' if body in RESERVED_NAMES", "the http body field name follows the same rule")
+    r1.check(node is not None and bb["_ANYB_"].endswith(".body or None"), tp.module.path, tp.node.lineno, "body + '_' if body in RESERVED_NAMES",
+             "the http body field name follows the same rule")
 
     r2 = report.rule("C12.2", "every Python keyword of the running interpreter is in RESERVED_NAMES", floor=30)
     missing = sorted(set(keyword.kwlist) - set(names))
